@@ -95,6 +95,8 @@ type histMode struct {
 	batch   int  // > 0: all reads go into one buffer of this many rows; 0: fresh buffers
 	forward bool // the reader only seeks forward and cannot be rewound (ConvertRowReader over a plain reader)
 	drain   bool // finish by reading to the end (in batches), comparing every row
+	fwdSeek bool // SeekToRow only forward (the rows of the source refuse to seek backward, with an error), Reset allowed
+	rewind  bool // begin with ReadRows(k), Reset: the rows must start again at row 0 (readers with a Reset method)
 }
 
 func (m histMode) String() string {
@@ -149,6 +151,17 @@ func rowHistory(pairs [][2]int, want []parquet.Row, r rowsAPI, rng *rand.Rand, m
 		return nil
 	}
 	resetter, _ := r.(interface{ Reset() })
+	if mode.rewind && resetter != nil && n > 0 {
+		if err := read(1 + rng.Intn(maxAsk)); err != nil {
+			return err
+		}
+		trace = append(trace, "Reset")
+		resetter.Reset()
+		pos = 0
+		if err := read(1 + rng.Intn(maxAsk)); err != nil {
+			return err
+		}
+	}
 	for step := 2 + rng.Intn(5); step > 0; step-- {
 		switch k := rng.Intn(10); {
 		case k < 5:
@@ -160,7 +173,7 @@ func rowHistory(pairs [][2]int, want []parquet.Row, r rowsAPI, rng *rand.Rand, m
 				return err
 			}
 		case k < 8 || resetter == nil || mode.forward:
-			if mode.forward {
+			if mode.forward || mode.fwdSeek {
 				pos += rng.Intn(n - pos + 1)
 			} else {
 				pos = rng.Intn(n + 1)
